@@ -159,6 +159,65 @@ def grid_shape_rules(run, db):
                       % tuple([label] + shapes), f.loc(blk[0]))
 
 
+def inventory_rules(run, db):
+    """Who may touch the data between the object and the image: the convolution routines transform, multiply and transform
+    back on the array's OWN grid; the OTF products are the transform's modulus / angle / value divided by their DC sample."""
+    allowed = {
+        CV + 'conv': {'fft.fft2', 'fft.ifft2', 'fft.fftshift', 'fft.ifftshift'},
+        CV + 'apply_transfer_functions': {'fft.fft2', 'fft.ifft2', 'fft.fftshift', 'fft.ifftshift', 'any', 'callable', 'forward_ft_unit', 'optimize_xy_separable', 'cart_to_polar',
+                                          'inspect.signature'},
+    }
+    for q, ok_calls in allowed.items():
+        f = db.func(q)
+        local = {n.id for n in ast.walk(f.node) if isinstance(n, ast.Name) and isinstance(n.ctx, ast.Store)} | set(f.params)
+        extra = []
+        for c in walk_no_nested(f.node):
+            if isinstance(c, ast.Call):
+                t = ast.unparse(c.func)
+                if t in ok_calls or (isinstance(c.func, ast.Name) and c.func.id in local):
+                    continue          # a local name that is called is a user-supplied transfer function
+                extra.append(c)
+        run.check(not extra, 'C15.origin', f.qual, 'operations on the data', '%s only transforms, shifts and multiplies (calls: %s)' % (f.name, sorted(ok_calls)),
+                  '%s also calls `%s`: the result is no longer the circular convolution on the array\'s own grid / no longer linear in the object (resizing to another FFT length changes what wraps around; '
+                  'a modulus or clip breaks linearity)' % (f.name, ast.unparse(extra[0]) if extra else ''), f.loc(extra[0]) if extra else f.loc())
+        rets = [n for n in walk_no_nested(f.node) if isinstance(n, ast.Return) and n.value is not None]
+        names = {}
+        for n in walk_no_nested(f.node):
+            if isinstance(n, ast.Assign) and isinstance(n.targets[0], ast.Name):
+                names[n.targets[0].id] = n.value
+        okr = bool(rets)
+        for r in rets:
+            v = r.value
+            if isinstance(v, ast.Name) and v.id in names:
+                v = names[v.id]
+            okr = okr and isinstance(v, ast.Attribute) and v.attr == 'real'
+        run.check(okr, 'C15.origin', f.qual, 'real part', 'the image is the REAL PART of the inverse transform (linear in the object, negative samples kept)',
+                  '%s does not return `.real` of the inverse transform on every path' % f.name, f.loc())
+    # OTF products: the returned array is written by its defining expression and the DC normalisation only
+    for nm in ('mtf_from_psf', 'ptf_from_psf', 'otf_from_psf'):
+        fi = db.func(OT + nm)
+        ctor = [c for c in walk_no_nested(fi.node) if isinstance(c, ast.Call) and ast.unparse(c.func) == 'RichData']
+        if len(ctor) != 1:
+            raise AnalysisError('%s: RichData(...) result not found' % nm)
+        dv = [k.value for k in ctor[0].keywords if k.arg == 'data']
+        if len(dv) != 1 or not isinstance(dv[0], ast.Name):
+            raise AnalysisError('%s: result array is not a plain name' % nm)
+        res = dv[0].id
+        writes = []
+        for n in walk_no_nested(fi.node):
+            if isinstance(n, ast.Assign):
+                for t in n.targets:
+                    if isinstance(t, ast.Subscript) and isinstance(t.value, ast.Name) and t.value.id == res:
+                        writes.append(n)
+            if isinstance(n, ast.AugAssign):
+                base = n.target.value if isinstance(n.target, ast.Subscript) else n.target
+                if isinstance(base, ast.Name) and base.id == res and not (isinstance(n.op, ast.Div) and isinstance(n.target, ast.Name)):
+                    writes.append(n)
+        run.check(not writes, 'C15.dc', fi.qual, 'no post-processing', 'the returned array is its defining expression divided by its DC sample, nothing else',
+                  '%s edits its result with `%s`: the product no longer equals the modulus / angle / value of the transform at those samples (OTF != MTF exp(i PTF) there)'
+                  % (nm, norm_stmt(writes[0]) if writes else ''), fi.loc(writes[0]) if writes else fi.loc())
+
+
 def otf_rules(run, db):
     f = db.func(OT + 'transform_psf')
     for parity in (0, 1):
@@ -235,7 +294,7 @@ def check(run, db, tier):
     run.rule('C15.fold', 'the transfer-function list is folded multiplicatively over every element exactly once')
     run.rule('C15.dc', 'MTF/PTF/OTF share one transform and are normalised by their own sample at n//2')
     run.rule('C15.cache', 'no memo keyed by less than its fill reads; arguments are not modified in place (results do not depend on call history)')
-    for fn in (conv_rules, atf_rules, grid_shape_rules, otf_rules, cache_rules):
+    for fn in (conv_rules, atf_rules, inventory_rules, grid_shape_rules, otf_rules, cache_rules):
         run.group(fn, run, db)
     run.require_instances('C15.origin', 12)
     run.require_instances('C15.dc', 20)
